@@ -26,8 +26,15 @@ LEVEL_TEXT = (
     "C04_foreign_anchor_never_matches (all tables, all paths), C04_lookup_on_resolved and C04_alias_invariant (composition "
     "with the C02 resolver: every base, every absolute cwd, every string), C04_deny_iff, C04_check_perm_table_sound (every "
     "accepted dispatch table) and the instance obligations C04_table_checked / C04_verbs_today on the regenerated "
-    "Gen/Dispatch.v are proved (Closed under the global context). The session-level statement (a denied request queues "
-    "exactly one 550 and leaves tree and cwd unchanged) is validated at wire level only here and is left to the Session model."
+    "Gen/Dispatch.v are proved (Closed under the global context). Requests carried out later than they are authorised "
+    "(LIST/MLSD/RETR/STOR/APPE: 150, then a worker when the data connection arrives): C04_transfer_target_is_authorised (for "
+    "every state at the request, every sequence of CWD/CDUP/re-login/other commands in between and every argument, the worker "
+    "hands to the backend exactly base ++ normalize(cwd0, arg), the location the permission was looked up for), "
+    "C04_check_worker_paths_sound and the instance obligations C04_workers_use_authorised_path / C04_transfer_target_today on the "
+    "regenerated Gen/Resolve.v (the workers use the handler's real_path, bound once by get_paths(connection, rest) before the task is "
+    "created; they never resolve again); C04_late_resolution_breaks shows the premise is needed. The session-level statement (a "
+    "denied request queues exactly one 550 and leaves tree and cwd unchanged) is validated at wire level only here (also with "
+    "commands between 150 and the data connection) and is left to the Session model."
 )
 LEVEL_NOTE = (
     "Trusted: Coq kernel, tools/py2v (decorator stacks), extraction cross-checked with vm_compute, harness. Modelled, not "
@@ -38,7 +45,10 @@ TRUSTED = [
     "Python's built-in min(iterable, key=, default=) returns the first element with the least key (modelled as min_by; exercised by "
     "the exhaustive tables with duplicated and tied entries)",
     "pathlib model of C02 (Lib/PosixPath.v)",
+    "tools/py2v/gen_resolve.py (syntactic: which names the nested *_worker functions bind, where the handler binds real_path) and Python's "
+    "closure semantics (a free variable of a nested function denotes the enclosing frame's binding)",
 ]
+USES_GEN = ["Dispatch", "Resolve"]
 ASSUMPTIONS = [
     "the session-level half (exactly one 550, tree and cwd unchanged) is validated over real loopback sessions, its proof is a TODO of the Session model",
     "permission tables are lists of aioftp.Permission with PurePosixPath paths; custom user managers are outside",
@@ -608,7 +618,13 @@ def correspondence(ctx):
         "pseudo-random flags and identity compared by list index, plus random tables of 5-14 entries with duplicates; (decorator) "
         "the real PathPermissions wrapper around a recording body with real Connection/User/get_paths on random tables x cwds x "
         "spellings x flag lists (also 0 and 2 flags); (wire) real Server+Client over loopback with MemoryPathIO: every "
-        "permission-checked verb x targets x aliases x cwds on 5 tables, tree and PWD compared before/after a refusal. The "
+        "permission-checked verb x targets x aliases x cwds on 5 tables, tree and PWD compared before/after a refusal; "
+        "(interleave) real server on simnet with a recording backend: 5 tables x {STOR, APPE, RETR, LIST, MLSD} x 9 (cwd, relative "
+        "argument) pairs x 18 command sequences {nothing, CWD x7, CDUP, CDUP CDUP, USER v PASS, USER w (other base) PASS, USER v, "
+        "USER nobody, CWD+CDUP, PWD, re-login+CWD, CWD+re-login} placed between the 150 reply and the arrival of the data "
+        "connection (quick: a third of the product, every triple under one table; thorough: all 4050); the object written / "
+        "read / listed must be the one the lookup was made on (tree, bytes, names, recorded backend path), a denied request "
+        "must be 550, leave the tree unchanged and send nothing. The "
         "independent longest-prefix oracle runs on every real output. Non-trivial = distinct input."
     )
     xcheck = []
